@@ -495,6 +495,9 @@ func vpFileRead(f *os.File, b []byte) (int, error) {
 	if of.closed {
 		return 0, os.ErrClosed
 	}
+	if of.isDir {
+		return 0, vpErr("read", of.name, syscall.EISDIR)
+	}
 	if of.pos >= len(of.node.data) {
 		return 0, io.EOF
 	}
@@ -555,6 +558,9 @@ func vpFileSync(f *os.File) error { return nil }
 // io.Copy(dst, file) goes through (*os.File).WriteTo; io.Copy(file, src) through ReadFrom.
 func vpFileWriteTo(f *os.File, w io.Writer) (int64, error) {
 	of := vpOF(f)
+	if of.isDir {
+		return 0, vpErr("read", of.name, syscall.EISDIR)
+	}
 	if of.pos >= len(of.node.data) {
 		return 0, nil
 	}
